@@ -164,7 +164,7 @@ def run(ctx):
                 if int(f[5]) < t_start - 60 * 10**9:
                     violations.append({"what": "after a set raced by a touch/lookup, the new entry %s carries modification time %s, older than the set itself: it was not enqueued fresh" % (f[0], f[5]),
                                        "classification": {"kind": "stale-mtime-after-set", "family": fam["name"].split(":")[1]},
-                                       "replay": {"kind": "schedule", "family": fam["name"], "setup": fam["setup"], "participants": K.part_lines(fam), "schedule": K.schedule_text(cr)}})
+                                       "replay": {"kind": "schedule", "family": fam["name"], "setup": fam["setup"], "participants": K.part_lines(fam), "schedule": K.schedule_text(cr), "raw_schedule": K.schedule_raw(cr)}})
     seen, uniq = set(), []
     for v in violations:
         k = tuple(sorted(v["classification"].items()))
